@@ -135,7 +135,8 @@ class ErrorHandling:
                 # make up a token
                 token = Token()
                 token.type = token_name
-                token.value = value
+                # display strings such as "[number]" are not parsable values
+                token.value = '0' if token_name in ('FLOAT', 'INTEGER') else value
                 token.end = 0
                 token.index = 0
                 token.lineno = 0
